@@ -28,9 +28,12 @@ struct State {
     oracle: String,
     message: String,
     stale: Vec<String>,
+    markers: Vec<String>,
 }
 
-fn run_with(case: &Case, picks: &[u16], oracle: &str, b: &mut Budget) -> Option<(Vec<u16>, String, Vec<String>)> {
+type Hit = (Vec<u16>, String, Vec<String>, Vec<String>);
+
+fn run_with(case: &Case, picks: &[u16], oracle: &str, b: &mut Budget) -> Option<Hit> {
     b.used += 1;
     let r = execute(
         case,
@@ -41,16 +44,26 @@ fn run_with(case: &Case, picks: &[u16], oracle: &str, b: &mut Budget) -> Option<
         false,
     );
     match &r.failure {
-        Some((k, m)) if k == oracle => Some((r.trace.iter().map(|d| d.pick).collect(), m.clone(), stale_sites(&r.out))),
+        Some((k, m)) if k == oracle => Some((
+            r.trace.iter().map(|d| d.pick).collect(),
+            m.clone(),
+            stale_sites(&r.out),
+            crate::world::w(|w| w.markers.clone()),
+        )),
         _ => None,
     }
 }
 
-fn run_random(case: &Case, seed: u64, oracle: &str, b: &mut Budget) -> Option<(Vec<u16>, String, Vec<String>)> {
+fn run_random(case: &Case, seed: u64, oracle: &str, b: &mut Budget) -> Option<Hit> {
     b.used += 1;
     let r = execute(case, Source::Random(Rng::new(seed)), false);
     match &r.failure {
-        Some((k, m)) if k == oracle => Some((r.trace.iter().map(|d| d.pick).collect(), m.clone(), stale_sites(&r.out))),
+        Some((k, m)) if k == oracle => Some((
+            r.trace.iter().map(|d| d.pick).collect(),
+            m.clone(),
+            stale_sites(&r.out),
+            crate::world::w(|w| w.markers.clone()),
+        )),
         _ => None,
     }
 }
@@ -70,11 +83,12 @@ fn try_prog(st: &mut State, prog: Program, b: &mut Budget, random_tries: u64) ->
         res = run_random(&cand, 0x5151 + i * 7919 + st.picks.len() as u64, &st.oracle, b);
         i += 1;
     }
-    if let Some((p, m, s)) = res {
+    if let Some((p, m, s, mk)) = res {
         st.case = cand;
         st.picks = p;
         st.message = m;
         st.stale = s;
+        st.markers = mk;
         true
     } else {
         false
@@ -130,13 +144,15 @@ pub fn minimise(rf: &ReplayFile, execs: u64, secs: f64) -> (ReplayFile, u64) {
         oracle: rf.oracle.clone(),
         message: rf.message.clone(),
         stale: rf.stale_sites.clone(),
+        markers: rf.markers.clone(),
     };
     // Sanity: the input must fail as recorded.
     match run_with(&st.case, &st.picks, &st.oracle, &mut b) {
-        Some((p, m, s)) => {
+        Some((p, m, s, mk)) => {
             st.picks = p;
             st.message = m;
             st.stale = s;
+            st.markers = mk;
         }
         None => return (rf.clone(), b.used),
     }
@@ -217,10 +233,11 @@ pub fn minimise(rf: &ReplayFile, execs: u64, secs: f64) -> (ReplayFile, u64) {
                         cand[nz[k]] = 0;
                     }
                 }
-                if let Some((p, m, s)) = run_with(&st.case, &cand, &st.oracle, &mut b) {
+                if let Some((p, m, s, mk)) = run_with(&st.case, &cand, &st.oracle, &mut b) {
                     st.picks = p;
                     st.message = m;
                     st.stale = s;
+                    st.markers = mk;
                     any = true;
                     progress = true;
                     break; // positions changed: recompute
@@ -249,10 +266,11 @@ pub fn minimise(rf: &ReplayFile, execs: u64, secs: f64) -> (ReplayFile, u64) {
             if pos < st.picks.len() && st.picks[pos] > 1 {
                 let mut cand = st.picks.clone();
                 cand[pos] = 1;
-                if let Some((p, m, s)) = run_with(&st.case, &cand, &st.oracle, &mut b) {
+                if let Some((p, m, s, mk)) = run_with(&st.case, &cand, &st.oracle, &mut b) {
                     st.picks = p;
                     st.message = m;
                     st.stale = s;
+                    st.markers = mk;
                 }
             }
         }
@@ -278,6 +296,7 @@ pub fn minimise(rf: &ReplayFile, execs: u64, secs: f64) -> (ReplayFile, u64) {
         n_decisions: r.trace.len(),
         n_nonzero: r.trace.iter().filter(|d| d.pick != 0).count(),
         stale_sites: st.stale.clone(),
+        markers: st.markers.clone(),
         case: st.case.clone(),
         picks,
     };
